@@ -42,7 +42,7 @@ EPS_D = {False: Fraction(1, 10 ** 10), True: Fraction(2, 10 ** 5)}     # x64 / f
 EPS_O = {False: 1e-7, True: 2e-4}                                         # oracle (scipy vs tfp) tolerance
 CORPUS = os.path.join(common.VERIF, "harness", "corpus")
 
-FORCED = ["user", "free", "both", "norole", "transient", "transform", "mvnd", "weakdist", "nodist", "distreg", "distreg"]
+FORCED = ["user", "free", "both", "norole", "transient", "transform", "mvnd", "weakdist", "nodist", "matrix", "distreg", "distreg"]
 
 
 # ---------------------------------------------------------------------------------------------
@@ -63,7 +63,9 @@ def features(prog) -> list[str]:
                 fs.append("per_obs=False")
             if v["calc"] is not None:
                 fs.append("weak_var_with_dist")
-            if v["shape"] and d["fam"] != "mvnd":
+            if isinstance(v["shape"], list):
+                fs.append("matrix_obs")
+            elif v["shape"] and d["fam"] != "mvnd":
                 fs.append("vector_obs")
         elif v["calc"] is not None:
             fs.append("weak_intermediate")
@@ -190,7 +192,7 @@ def generate(ctx):
     ctx.cov["rule"] = ("one case = one real lsl.Model at one assignment of values; distinct = distinct (program, sequence of "
                        "positions); forced strata (each >= 2 programs per run): user-supplied nodes, free distribution node, both "
                        "flags, no flag, TransientDist, transformed variable, degenerate MVN, weak variable with distribution, "
-                       "explicit NoDist node, DistRegBuilder")
+                       "explicit NoDist node, matrix-valued observation, DistRegBuilder")
     for c in cases[:1] + [c for c in cases if c["prog"]["user"]][:1] + [c for c in cases if c["prog"]["kind"] == "distreg"][:1]:
         ctx.sample({"features": features(c["prog"]), "k": c["k"],
                     "reads": [{k: str(v) for k, v in r.items()} for r in (c["obs"]["reads"][:2] if c["obs"] else [])]})
